@@ -224,6 +224,48 @@ def tr_find_mapping(fn):
             "  if existsb (String.eqb target) keys then FFound target else src_find_marked keys target." % dict(k=k, ch=ch))
 
 
+def tr_store_adapter(comp):
+    """StoreAdapter.__init__ (binds + default binds), _get_bound_names, get_state, set_state"""
+    ini = find(comp, "StoreAdapter", "__init__")
+    same(ini, "self._default_state = default_state\nif binds is None:\n    binds = {}\nbinds.update(GlobalProperty.get_default_binds())\n"
+              "self._binds = binds\n", "StoreAdapter.__init__")
+    out = ["(* StoreAdapter.__init__: the component's binds, updated with the default binds *)\n"
+           "Definition src_adapter_binds (binds : list (string * string)) : list (string * string) := dupdate binds default_binds."]
+    fn = find(comp, "StoreAdapter", "_get_bound_names")
+    b = body_of(fn)
+    if len(b) != 3:
+        bad(fn, "_get_bound_names has %d statements, expected 3" % len(b))
+    s0, s1, s2 = b
+    if not (isinstance(s0, ast.Assign) and isinstance(s0.targets[0], ast.Name) and isinstance(s0.value, ast.DictComp)
+            and len(s0.value.generators) == 1 and isinstance(s0.value.generators[0].target, ast.Name)
+            and ast.unparse(s0.value.generators[0].iter) == "self._default_state" and not s0.value.generators[0].ifs):
+        bad(s0, "_get_bound_names: first statement is not a dict comprehension over the default state's names")
+    n = s0.value.generators[0].target.id
+    names = s0.targets[0].id
+    if ast.unparse(s0.value.key) != n or ast.unparse(s0.value.value) != n:
+        bad(s0, "_get_bound_names: the comprehension is not {name: name ...}")
+    if ast.unparse(s1) != "%s.update(self._binds)" % names:
+        bad(s1, "_get_bound_names: the binds do not update the names")
+    if not (isinstance(s2, ast.Return) and ast.unparse(s2.value) == names):
+        bad(s2, "_get_bound_names: return")
+    out.append("(* {name: name for name in default_state}, then .update(binds): a bind overrides a default name and new names go last *)\n"
+               "Definition src_get_bound_names (default_state : list (string * Ent)) (binds : list (string * string)) : list (string * string) :=\n"
+               "  let %s := dupdate [] (map (fun kv => (fst kv, fst kv)) default_state) in\n  dupdate %s binds." % (names, names))
+    same(find(comp, "StoreAdapter", "get_state"),
+         "entities = {name: store.read_entity(address, default=self._default_state.get(name)) for (name, address) in self._get_bound_names().items()}\n"
+         "return state_type(**entities)\n", "StoreAdapter.get_state")
+    out.append("(* one read_entity(address, default=default_state.get(name)) per bound name, in the order of the names (read_all) *)\n"
+               "Definition src_get_state (cur : string) (default_state : list (string * Ent)) (binds : list (string * string)) (st : store Ent)\n"
+               "  : option (store Ent * list (string * Ent)) :=\n  read_all Ent cur default_state (src_get_bound_names default_state binds) st.")
+    same(find(comp, "StoreAdapter", "set_state"),
+         "bounded_names = self._get_bound_names()\nfor (name, entity) in dict(state).items():\n    if name in bounded_names:\n"
+         "        store.set_entity(bounded_names[name], entity)\n", "StoreAdapter.set_state")
+    out.append("(* one set_entity per field of the returned state whose name is bound, in the order of the fields (write_all) *)\n"
+               "Definition src_set_state (cur : string) (default_state : list (string * Ent)) (binds : list (string * string)) (out : list (string * Ent))\n"
+               "  (st : store Ent) : store Ent :=\n  write_all Ent cur (src_get_bound_names default_state binds) out st.")
+    return out
+
+
 def same(fn, text, what):
     got = body_of(fn)
     want = ast.parse(text).body
@@ -238,6 +280,7 @@ def gen(repo):
     out = [tr_regularize(find(comp, "ReducerMethodWrappingDispatcher", "regularize_returned_event")),
            tr_tag(find(comp, "ReducerMethodWrappingDispatcher", "tag_events_by_method_name"))]
     out.append(tr_find_mapping(find(comp, "ReducerMethodWrappingDispatcher", "_find_mapping_name")))
+    out += tr_store_adapter(comp)
     # the string rules: small enough to be compared verbatim; the emitted definitions spell out what the text means
     same(find(base, None, "message_signature"),
          "if len(message['method']) == 0:\n    return message['name']\nreturn f\"{message['name']}.{message['method']}\"\n", "message_signature")
@@ -252,7 +295,7 @@ def gen(repo):
          "return AddressedStore(self._concrete_store, f'{self._current_address}.{address}')\n", "AddressedStore.local")
     out.append("Definition src_local (current_address address : string) : string := current_address ++ \".\" ++ address.")
     return {"WrapperSrc.v": HEADER + "\n\n".join(out) + "\n\nEnd WrapperSrc.\n"}, \
-        {"functions": ["ReducerMethodWrappingDispatcher.regularize_returned_event", "tag_events_by_method_name", "_find_mapping_name", "message_signature",
+        {"functions": ["ReducerMethodWrappingDispatcher.regularize_returned_event", "tag_events_by_method_name", "_find_mapping_name", "StoreAdapter.__init__", "_get_bound_names", "get_state", "set_state", "message_signature",
                        "AddressedStore._resolve_address", "AddressedStore.local"], "sources": [COMP, BASE]}
 
 
@@ -265,6 +308,7 @@ Local Open Scope string_scope.
 Section WrapperSrc.
   Variable Pay : Type.
   Variable empty_pay : Pay.          (* {} *)
+  Variable Ent : Type.
 
 """
 
